@@ -99,6 +99,9 @@ func cmdDiff(args []string) {
 	must(fs.Parse(args))
 	rw := newResultWriter(*out)
 	o := genOptsFor(*profile)
+	if *mode == "instants" {
+		o.NoStartEnd = true // C07 is stated for queries that do not use start()/end()
+	}
 	caseDir := fs.Lookup("dump-failing").Value.String()
 	if *one != "" {
 		c := loadCaseFile(*one)
@@ -137,6 +140,16 @@ func runOracle(mode string, c *Case) CaseResult {
 	switch mode {
 	case "ref":
 		return oracleRef(c)
+	case "instants":
+		return oracleInstants(c)
+	case "opt":
+		return oracleOpt(c)
+	case "procs":
+		return oracleProcs(c)
+	case "perm":
+		return oraclePerm(c)
+	case "wf":
+		return oracleWF(c)
 	}
 	fatal(fmt.Errorf("unknown oracle mode %q", mode))
 	return CaseResult{}
